@@ -844,6 +844,144 @@ def check_cache(ck, env, n, use_model):
     env.clear_cache()
 
 
+# ---------------------------------------------------------------- histories (hidden state in the grids)
+MUTATIONS = ["shift", "scale", "nan", "reverse", "mod360", "radians", "zero"]
+
+
+def mutate_inplace(arr, kind):
+    """what a caller may do with an array a request handed out (it belongs to the caller)"""
+    if arr.size == 0 or not arr.flags.writeable:
+        return False                      # a read-only result would be a legitimate defence
+    if kind == "shift":
+        arr += 0.5 / 120
+    elif kind == "scale":
+        arr *= -2.0
+    elif kind == "nan":
+        arr.fill(np.nan)
+    elif kind == "reverse":
+        arr[...] = arr[::-1].copy()
+    elif kind == "mod360":
+        np.remainder(arr, 360.0, out=arr)
+    elif kind == "radians":
+        np.radians(arr, out=arr)
+    elif kind == "zero":
+        arr[...] = 0
+    return True
+
+
+def library_arrays(env):
+    """every ndarray reachable as module / class state of typhon.topography"""
+    out = []
+    for owner, d in (("typhon.topography", vars(env.topo)), ("SRTM30", vars(env.S))):
+        for k, v in list(d.items()):
+            if isinstance(v, np.ndarray):
+                out.append((f"{owner}.{k}", v))
+    return out
+
+
+def gen_history(rng):
+    """>= 2 requests whose rows / columns overlap, with in-place modifications of the results of the
+    earlier ones in between"""
+    for _ in range(50):
+        kind, rect = gen_rect(rng)
+        if kind not in ("micro", "row3", "col3", "ulp"):
+            break
+    c = 1.0 / 120
+    la0, lo0, la1, lo1 = rect
+    tile = oracle_tiles(tuple(F(x) for x in rect))[0]
+    reqs = []
+    for k in range(rng.randint(2, 4)):
+        t = rng.choice(["elev", "elev", "native", "grids"])
+        if t == "grids":
+            reqs.append(dict(type="grids", tile=tile))
+            continue
+        if k == 0 or rng.random() < 0.25:
+            r = rect
+        else:       # move every edge by up to 3 cells: still overlapping rows and columns
+            r = (max(-60.0, la0 - rng.uniform(0, 3) * c), max(-180.0, lo0 - rng.uniform(0, 3) * c),
+                 min(90.0, la1 + rng.uniform(0, 3) * c), min(180.0, lo1 + rng.uniform(0, 3) * c))
+        reqs.append(dict(type=t, rect=[float(x).hex() for x in r], rect_dec=[float(x) for x in r]))
+    if not any(q["type"] == "elev" for q in reqs[1:]):
+        reqs.append(dict(type="elev", rect=[float(x).hex() for x in rect], rect_dec=[float(x) for x in rect]))
+    muts = [[(i, rng.choice(MUTATIONS)) for i in range(3) if rng.random() < 0.8] for _ in reqs]
+    return dict(op="history", kind=kind, requests=reqs, mutations=muts, zero_d_args=rng.random() < 0.5)
+
+
+def run_history(ck, env, case):
+    """replays one history on the real code.  Every request must return exactly what the same
+    request returns without any history (reference taken up front and copied), its arrays must not
+    share memory with earlier results nor with library state, arguments must stay untouched."""
+    S = env.S
+    reqs = case["requests"]
+
+    def args_of(q):
+        vals = [float.fromhex(h) for h in q["rect"]]
+        return [np.array(v) for v in vals] if case.get("zero_d_args") else vals
+
+    def call(q, a=None):
+        if q["type"] == "grids":
+            return tuple(S.get_grids(q["tile"]))
+        a = a if a is not None else args_of(q)
+        return tuple(S.get_native_grids(*a)) if q["type"] == "native" else tuple(S.elevation(*a))
+
+    # reference: coordinate vectors of every request, before anything was modified (copied)
+    ok, ref = guarded(ck, lambda: [tuple(np.array(x, copy=True) for x in call(dict(q, type="native") if q["type"] == "elev" else q))
+                                   for q in reqs], case, "history/reference")
+    if not ok:
+        return
+    alive = []           # (label, array) of everything handed out so far
+    good = True
+    shared = False
+    for k, q in enumerate(reqs):
+        a = args_of(q) if q["type"] != "grids" else None
+        rect = tuple(float.fromhex(h) for h in q["rect"]) if q["type"] != "grids" else None
+        env.clear_cache() if k == 0 else None
+        ok, res = guarded(ck, lambda: call(q, a), case, f"request #{k} ({q['type']}) after in-place changes of earlier results", rect=rect)
+        if not ok:
+            good = False
+            break
+        if a is not None and case.get("zero_d_args") and [float(x) for x in a] != [float.fromhex(h) for h in q["rect"]]:
+            ck.violation("other", f"request #{k} modified its arguments: {[float(x) for x in a]}", case)
+            good = False
+        for i in (0, 1):
+            if not (res[i].shape == ref[k][i].shape and np.array_equal(res[i], ref[k][i])):
+                ck.violation("other", f"request #{k} ({q['type']} {q.get('rect_dec') or q.get('tile')}): returned "
+                                      f"{'latitudes' if i == 0 else 'longitudes'} differ from those of the same request without history "
+                                      f"(first values {np.asarray(res[i]).ravel()[:3].tolist()} vs {ref[k][i].ravel()[:3].tolist()}) after the caller "
+                                      f"modified earlier results in place {case['mutations'][:k]}", case)
+                good = False
+                break
+        if not good:
+            break
+        if q["type"] == "elev" and oracle_elev(ck, rect, res[0], res[1], res[2], case) is None:
+            good = False
+            break
+        for i, arr in enumerate(res):
+            lab = f"#{k}.{('lats', 'lons', 'elevation')[i]}"
+            for lab2, other in alive:
+                if np.shares_memory(arr, other):
+                    ck.violation("other", f"result {lab} shares memory with the earlier result {lab2}", case)
+                    shared = True
+            for lab2, other in library_arrays(env):
+                if np.shares_memory(arr, other):
+                    ck.violation("other", f"result {lab} shares memory with library state {lab2}", case)
+                    shared = True
+            alive.append((lab, arr))
+        # (aliasing is reported but the history goes on: the functional damage shows in a later request)
+        for i, kind in case["mutations"][k]:
+            if i < len(res):
+                mutate_inplace(res[i], kind)
+    good = good and not shared
+    ck.case(key=("history", json.dumps(case["requests"])) if good else None,
+            kind=f"history/{len(reqs)}req/" + ("ok" if good else "violation"),
+            sample={"requests": [q.get("rect_dec") or q.get("tile") for q in reqs], "mutations": case["mutations"]})
+
+
+def check_histories(ck, env, n):
+    for _ in range(n):
+        run_history(ck, env, gen_history(ck.rng))
+
+
 # ---------------------------------------------------------------- driving
 def explore_elev(ck, env, n, use_model, rects=None):
     rng = ck.rng
@@ -891,6 +1029,8 @@ def run_corpus_case(ck, env, c, use_model):
             o = ck.driver(["tiles " + " ".join(fs(x) for x in rect_candidates(rect)[0])])[0]
             if ([] if o == "-" else o.split()) != wants[0]:
                 ck.disagree(f"get_tiles: model {o} vs oracle {wants[0]}", case)
+    elif op == "history":
+        run_history(ck, env, c)
     elif op == "edge":
         v = float.fromhex(c["value"])
         role = c["role"]
@@ -929,7 +1069,9 @@ def main():
     ck.rule = ("rectangles <= 45x45 cells between 60S and 90N: inside one tile, across a vertical / horizontal border, over a 4-tile corner, touching a "
                "border exactly, at +-180, at 90N / 60S, thinner than a cell, edges random / multiples of 0.125 / k/120 / +-1 ulp; plus every multiple of 0.125 deg "
                "as each of the four edges (index computation), random get_tiles rectangles, the 27 tile grids and get_tile request sequences on warm / cold "
-               "caches; non-trivial = distinct (kind, #tiles, block shape, position in tile) / distinct aligned edge / distinct request sequence")
+               "caches; HISTORIES of 2-5 overlapping requests (elevation / get_native_grids / get_grids) where the caller modifies the arrays returned by "
+               "earlier requests in place (shift, scale, NaN, reverse, %360, radians, zero) -- later requests must equal the history-free result and share no "
+               "memory; non-trivial = distinct (kind, #tiles, block shape, position in tile) / distinct aligned edge / distinct request sequence / distinct history")
     ck.anchors([("typhon/topography.py", "_do_overlap"), ("typhon/topography.py", "SRTM30.get_tiles"),
                 ("typhon/topography.py", "SRTM30.get_bounds"), ("typhon/topography.py", "SRTM30.get_grids"),
                 ("typhon/topography.py", "SRTM30.get_native_grids"), ("typhon/topography.py", "SRTM30.get_tile"),
@@ -956,12 +1098,14 @@ def main():
         check_tiles(ck, env, ck.budget(1500, 30000), use_model)
         check_cache(ck, env, ck.budget(60, 1500), use_model)
         explore_elev(ck, env, ck.budget(100, 1500), use_model)
+        check_histories(ck, env, ck.budget(30, 600))
         if ck.broken() and not ck.violations:
             # failing-input search on the real code (oracle only) with the larger budget
             aligned_edges(ck, env, False)
             check_tiles(ck, env, 20000, False)
             check_cache(ck, env, 500, False)
             explore_elev(ck, env, 1500, False)
+            check_histories(ck, env, 300)
     finally:
         env.close()
     if os.environ.get("VERIF_DEBUG"):
@@ -982,7 +1126,7 @@ def replay(path):
         raise SystemExit(1)
     env = Env()
     try:
-        if c.get("op") in ("elev", "tiles", "edge"):
+        if c.get("op") in ("elev", "tiles", "edge", "history"):
             run_corpus_case(ck, env, c, use_model=False)
         elif c.get("op") == "cache":
             names = [t[0] for t in OWN]
